@@ -102,6 +102,8 @@ def observe_slice(case):
     runs = []
     for carrier in ('ser', 'df'):
         x = series(clock, s['rows'], s['cols'][0]) if carrier == 'ser' else frame(clock, s)
+        if carrier == 'ser' and sp >= 6:
+            x.name = 'close'           # a named series (the statement is indifferent to names)
         try:
             with warnings.catch_warnings():
                 warnings.simplefilter('ignore')
@@ -121,51 +123,65 @@ def observe_slice(case):
             'oc': case['oc'], 'spelling': sp, 'runs': runs}
 
 
-def observe_stitch(case):
-    """case: {ss, ubs, n, unit}: the stitch; then, for increasing bounds, df_unslice of what came back and the
-    stitching of the recovered series"""
+def observe_session(case):
+    """case: {ss, ubs, ns, unit, name}: a session of stitch calls df_slice(xs, ub=bounds, n=n), n in ns, all on the SAME
+    list objects xs / bounds (as a caller does who stitches 1-wide, then 2-wide ...).  After every call the two argument
+    lists are read again.  For increasing bounds each stitched result is also handed to df_unslice and the recovered
+    series are stitched again.  All series carry case['name'] (None or a shared name such as 'close')."""
     from pyg_base import df_slice, df_unslice
     clock = Clock('date', 100, case['unit'])
-    ss, ubs, n = case['ss'], case['ubs'], case['n']
+    ss, ubs, name = case['ss'], case['ubs'], case.get('name')
     xs = [series(clock, s['rows'], s['cols'][0]) for s in ss]
+    if name:
+        for x in xs:
+            x.name = name
+    originals = list(xs)
     bounds = [clock.bound(u) for u in ubs]
-    obs = []
-    res = None
-    try:
-        with warnings.catch_warnings():
-            warnings.simplefilter('ignore')
-            res = df_slice(xs, ub=bounds, n=n)
-        out = enc(res, clock)          # a Series or a frame; the statement does not name the column labels
-    except Exception as e:
-        out = exc(e)
-    obs.append({'op': 'stitch', 'ss': ss, 'ubs': ubs, 'n': n, 'unit': case['unit'], 'out': out})
     increasing = all(a < b for a, b in zip(ubs, ubs[1:]))
-    if out['kind'] == 'val' and increasing:
-        F = {'rows': out['rows'], 'cols': out['cols']}
-        again = None
+    calls, unst = [], []
+    for n in case['ns']:
+        res = None
         try:
             with warnings.catch_warnings():
                 warnings.simplefilter('ignore')
-                u = df_unslice(res, bounds)
-            keys = sorted(u.keys())
-            uo = {'kind': 'val', 'keys': [clock.grid(k) for k in keys], 'series': []}
-            for k in keys:
-                e1 = enc(u[k], clock)
-                if e1['kind'] != 'val' or not isinstance(u[k], pd.Series):
-                    uo = {'kind': 'other', 'type': type(u[k]).__name__}
-                    break
-                uo['series'].append({'rows': e1['rows'], 'cols': e1['cols']})
-            if uo['kind'] == 'val' and [clock.grid(k) for k in keys] == ubs:
-                try:
-                    with warnings.catch_warnings():
-                        warnings.simplefilter('ignore')
-                        again = enc(df_slice([u[k] for k in keys], ub=bounds, n=n), clock)
-                except Exception as e:
-                    again = exc(e)
+                res = df_slice(xs, ub=bounds, n=n)
+            out = enc(res, clock)          # a Series or a frame; the statement does not name the column labels
         except Exception as e:
-            uo = exc(e)
-        obs.append({'op': 'unstitch', 'F': F, 'ubs': ubs, 'n': n, 'unit': case['unit'], 'out': uo, 'again': again})
-    return obs
+            out = exc(e)
+        ubs_after = [clock.grid(b) if isinstance(b, datetime.datetime) else -9 for b in bounds] if isinstance(bounds, list) else [-9]
+        pos = {id(x): i + 1 for i, x in enumerate(originals)}
+        ss_after = [pos.get(id(x), -9) for x in xs] if isinstance(xs, list) else [-9]
+        for i, x in enumerate(originals):          # ... and the series themselves still hold what they held
+            e0 = enc(x, clock)
+            if {'rows': e0['rows'], 'cols': e0['cols']} != ss[i] and (i + 1) in ss_after:
+                ss_after[ss_after.index(i + 1)] = -8
+        calls.append({'n': n, 'out': out, 'ubs_after': ubs_after, 'ss_after': ss_after})
+        if out['kind'] == 'val' and increasing and ubs_after == ubs:
+            F = {'rows': out['rows'], 'cols': out['cols']}
+            again = None
+            try:
+                with warnings.catch_warnings():
+                    warnings.simplefilter('ignore')
+                    u = df_unslice(res, list(bounds))
+                keys = sorted(u.keys())
+                uo = {'kind': 'val', 'keys': [clock.grid(k) for k in keys], 'series': []}
+                for k in keys:
+                    e1 = enc(u[k], clock)
+                    if e1['kind'] != 'val' or not isinstance(u[k], pd.Series):
+                        uo = {'kind': 'other', 'type': type(u[k]).__name__}
+                        break
+                    uo['series'].append({'rows': e1['rows'], 'cols': e1['cols']})
+                if uo['kind'] == 'val' and [clock.grid(k) for k in keys] == ubs:
+                    try:
+                        with warnings.catch_warnings():
+                            warnings.simplefilter('ignore')
+                            again = enc(df_slice([u[k] for k in keys], ub=list(bounds), n=n), clock)
+                    except Exception as e:
+                        again = exc(e)
+            except Exception as e:
+                uo = exc(e)
+            unst.append({'op': 'unstitch', 'F': F, 'ubs': ubs, 'n': n, 'unit': case['unit'], 'named': bool(name), 'out': uo, 'again': again})
+    return [{'op': 'session', 'ss': ss, 'ubs': ubs, 'unit': case['unit'], 'named': bool(name), 'calls': calls}] + unst
 
 
 def slice_kind(o):
@@ -182,12 +198,15 @@ def key_slice(o, carrier=None):
     return c
 
 
-def key_stitch(o):
-    if o['op'] == 'stitch':
+def key_stitch(o, k=None):
+    """o: a session (k = the 0-based index of the failing call) or an unstitch observation"""
+    if o['op'] == 'session':
         inc = all(a < b for a, b in zip(o['ubs'], o['ubs'][1:]))
-        return {'op': 'df_slice', 'kind': 'stitch', 'n': o['n'], 'k': len(o['ss']), 'direction': 'increasing' if inc else 'decreasing',
-                'has_empty': any(len(x['rows']) == 0 for x in o['ss']), 'ubs': o['ubs'], 'ss': o['ss'], 'unit': o['unit']}
-    return {'op': 'df_unslice', 'kind': 'unstitch', 'n': o['n'], 'k': len(o['ubs']), 'ubs': o['ubs'], 'F': o['F'], 'unit': o['unit']}
+        k = 0 if k is None else k
+        return {'op': 'df_slice', 'kind': 'stitch', 'n': o['calls'][k]['n'], 'k': len(o['ss']), 'direction': 'increasing' if inc else 'decreasing',
+                'has_empty': any(len(x['rows']) == 0 for x in o['ss']), 'named': o['named'], 'call': k + 1,
+                'ns': [c['n'] for c in o['calls']], 'ubs': o['ubs'], 'ss': o['ss'], 'unit': o['unit']}
+    return {'op': 'df_unslice', 'kind': 'unstitch', 'n': o['n'], 'k': len(o['ubs']), 'named': o['named'], 'ubs': o['ubs'], 'F': o['F'], 'unit': o['unit']}
 
 
 # ---------------------------------------------------------------------------------------------
@@ -215,26 +234,36 @@ def s2c_chunk(cases):
                     viol.append(('slice_values', key_slice(o, r['carrier']), {'expected': w['cols'], 'observed': out['cols']}))
             nt = 0 < len(want['rows']) < len(case['s']['rows'])
         else:
-            obs = observe_stitch(dict(case, unit=S2C_UNIT['stitch']))
-            want = case['want']
-            st = obs[0]
-            nevals += 1
-            out = st['out']
-            if out['kind'] != 'val':
-                viol.append(('stitch_raised', key_stitch(st), {'expected': want, 'observed': out}))
-            elif out['rows'] != want['rows']:
-                viol.append(('stitch_rows', key_stitch(st), {'expected': want['rows'], 'observed': out['rows']}))
-            elif out['cols'] != want['cols']:
-                viol.append(('stitch_values', key_stitch(st), {'expected': want['cols'], 'observed': out['cols']}))
-            nt = len({c // 1000 for col in want['cols'] for c in col if c != NAN}) > 1
-            if len(obs) > 1 and not viol:          # df_unslice is claimed for stitched frames only
-                un = obs[1]
-                nevals += 2
-                tolog.append({k: v for k, v in un.items() if k != 'again'})      # judged by Trace_Slice
-                if un['again'] is not None:
-                    ag = un['again']
-                    if ag['kind'] != 'val' or {'rows': ag['rows'], 'cols': ag['cols']} != want:
-                        viol.append(('unstitch_restitch', key_stitch(un), {'expected': want, 'observed': ag}))
+            # a session: the cases TLC printed for one (series list, bound list), replayed as consecutive calls on the
+            # same argument objects; call k must return what TLC expects for its n and leave the arguments alone
+            obs = observe_session(dict(case, unit=S2C_UNIT['stitch']))
+            se, uns = obs[0], {o['n']: o for o in obs[1:]}
+            idk = list(range(1, len(case['ss']) + 1))
+            for k, call in enumerate(se['calls']):
+                nevals += 1
+                want, out = case['wants'][str(call['n'])], call['out']
+                bad = True
+                if out['kind'] != 'val':
+                    viol.append(('stitch_raised', key_stitch(se, k), {'expected': want, 'observed': out}))
+                elif out['rows'] != want['rows']:
+                    viol.append(('stitch_rows', key_stitch(se, k), {'expected': want['rows'], 'observed': out['rows']}))
+                elif out['cols'] != want['cols']:
+                    viol.append(('stitch_values', key_stitch(se, k), {'expected': want['cols'], 'observed': out['cols']}))
+                elif call['ubs_after'] != case['ubs'] or call['ss_after'] != idk:
+                    viol.append(('argument_changed', key_stitch(se, k), {'ubs': case['ubs'], 'ubs_after': call['ubs_after'], 'ss_after': call['ss_after']}))
+                else:
+                    bad = False
+                nt = nt or len({c // 1000 for col in want['cols'] for c in col if c != NAN}) > 1
+                if bad:
+                    break                          # the rest of the session runs on damaged arguments
+                un = uns.get(call['n'])
+                if un is not None and k < len(case['wants']):      # df_unslice is claimed for stitched frames only
+                    nevals += 2
+                    tolog.append({kk: v for kk, v in un.items() if kk != 'again'})      # judged by Trace_Slice
+                    if un['again'] is not None:
+                        ag = un['again']
+                        if ag['kind'] != 'val' or {'rows': ag['rows'], 'cols': ag['cols']} != want:
+                            viol.append(('unstitch_restitch', key_stitch(un), {'expected': want, 'observed': ag}))
         res.append((viol, tolog, nevals, nt))
     return res
 
@@ -245,7 +274,7 @@ def c2s_chunk(cases):
         if c['op'] == 'slice':
             out.append(observe_slice(c))
         else:
-            out += [{k: v for k, v in o.items() if k != 'again'} for o in observe_stitch(c)]
+            out += [{k: v for k, v in o.items() if k != 'again'} for o in observe_session(c)]
     return out
 
 
@@ -270,28 +299,48 @@ def judge(ctx, obs):
         o = obs[i - 1]
         if o['op'] == 'slice':
             PENDING.append((clause, key_slice(o), {'runs': o['runs']}))
+        elif o['op'] == 'session':
+            PENDING.append((clause, key_stitch(o), {'calls': o['calls']}))
         else:
             PENDING.append((clause, key_stitch(o), {'observed': o['out']}))
     return bad
+
+
+def sessions_of(stitch_cases):
+    """group TLC's stitch cases by their arguments: one session per (series list, bound list), one call per n that TLC
+    printed an expectation for, the first n once more at the end; every other session uses named series"""
+    import json
+    groups = {}
+    for c in stitch_cases:
+        groups.setdefault(json.dumps([c['ss'], c['ubs']], sort_keys=True), []).append(c)
+    out = []
+    for g, key in enumerate(sorted(groups)):
+        cs = sorted(groups[key], key=lambda c: c['n'])
+        ns = [c['n'] for c in cs]
+        ns = ns[g % len(ns):] + ns[:g % len(ns)]          # rotate the order of the calls
+        out.append({'kind': 'session', 'ss': cs[0]['ss'], 'ubs': cs[0]['ubs'], 'ns': ns + ns[:1],
+                    'wants': {str(c['n']): c['want'] for c in cs}, 'name': 'close' if g % 2 else None})
+    return out
 
 
 def s2c(ctx, cases, tag):
     import json
     # TLC's workers print the cases in a schedule-dependent order: sort them (spellings, samples depend on the seed only)
     cases = sorted(cases, key=lambda c: json.dumps(c, sort_keys=True))
+    cases = [c for c in cases if c['kind'] != 'stitch'] + sessions_of([c for c in cases if c['kind'] == 'stitch'])
     for i, c in enumerate(cases):
-        c['spelling'] = i % 6
+        c['spelling'] = i % 12
     out = pmap(s2c_chunk, cases, chunk=400)
     tolog = []
     for i, (case, (viol, lg, nevals, nt)) in enumerate(zip(cases, out)):
         PENDING.extend(viol)
         tolog += lg
         ctx.evals += nevals
-        ctx.traces += 1
+        ctx.traces += len(case['wants']) if case['kind'] == 'session' else 1
         if nt:
-            ctx.note(('s2c', repr([case.get(k) for k in ('kind', 's', 'lb', 'ub', 'oc', 'ss', 'ubs', 'n')])))
-        if i % 15013 == 11:
-            ctx.sample({'s2c_case_' + tag: case})
+            ctx.note(('s2c', repr([case.get(k) for k in ('kind', 's', 'lb', 'ub', 'oc', 'ss', 'ubs', 'ns')])))
+        if i % 15013 == 11 or (case['kind'] == 'session' and i % 1013 == 5):
+            ctx.sample({'s2c_case_' + tag: case}, limit=6)
     if tolog:
         judge(ctx, tolog)
 
@@ -338,7 +387,7 @@ def rand_slice(rng):
         bnd = lambda: rand_bound(rng, keys, lo, hi)
     lb, ub = bnd(), bnd()
     s = {'rows': rows, 'cols': [[rng.randrange(0, 1000000) for _ in rows] for _ in range(ncols)]}
-    return {'op': 'slice', 'mode': mode, 'B': B, 'unit': 1, 's': s, 'lb': lb, 'ub': ub, 'oc': rng.choice(OCS), 'spelling': rng.randrange(0, 6)}
+    return {'op': 'slice', 'mode': mode, 'B': B, 'unit': 1, 's': s, 'lb': lb, 'ub': ub, 'oc': rng.choice(OCS), 'spelling': rng.randrange(0, 12)}
 
 
 def rand_stitch(rng):
@@ -356,21 +405,22 @@ def rand_stitch(rng):
         ubs.append(ubs[-1] + step)
     if rng.random() < 0.35:
         ubs = ubs[::-1]
-    return {'op': 'stitch', 'ss': ss, 'ubs': ubs, 'n': rng.randrange(1, k + 1), 'unit': 1}
+    return {'op': 'session', 'ss': ss, 'ubs': ubs, 'ns': [rng.randrange(1, k + 1) for _ in range(rng.choice([1, 2, 2, 3]))], 'unit': 1,
+            'name': rng.choice([None, 'close', 'px'])}
 
 
 def c2s(ctx, n_slice, n_stitch):
     cases = [rand_slice(ctx.rng) for _ in range(n_slice)] + [rand_stitch(ctx.rng) for _ in range(n_stitch)]
     obs = pmap(c2s_chunk, cases, chunk=100)
-    ctx.evals += sum(len(o['runs']) if o['op'] == 'slice' else 1 for o in obs)
+    ctx.evals += sum(len(o['runs']) if o['op'] == 'slice' else len(o['calls']) if o['op'] == 'session' else 1 for o in obs)
     judge(ctx, obs)
     for o in obs:
         if o['op'] == 'slice':
             got = o['runs'][0]['out']
             if 0 < len(got['rows']) < len(o['s']['rows']):
                 ctx.note(('c2s', repr((o['s']['rows'], o['lb'], o['ub'], o['oc'], o['mode']))))
-        elif o['op'] == 'stitch' and len(o['ss']) > 1 and o['out']['rows']:
-            ctx.note(('c2s', repr((o['ss'], o['ubs'], o['n']))))
+        elif o['op'] == 'session' and len(o['ss']) > 1 and any(c['out']['rows'] for c in o['calls']):
+            ctx.note(('c2s', repr((o['ss'], o['ubs'], [c['n'] for c in o['calls']]))))
     ctx.sample({'c2s_observation': obs[len(obs) // 3]})
     return obs
 
@@ -384,7 +434,7 @@ def replay(ctx, body):
         obs = [observe_slice({'mode': mode, 'B': B, 'unit': unit, 's': c['s'], 'lb': c['lb'], 'ub': c['ub'], 'oc': list(c['oc']),
                               'spelling': c.get('spelling', 0)})]
     elif c['kind'] == 'stitch':
-        obs = [{k: v for k, v in o.items() if k != 'again'} for o in observe_stitch({'ss': c['ss'], 'ubs': c['ubs'], 'n': c['n'], 'unit': c['unit']})][:1]
+        obs = observe_session({'ss': c['ss'], 'ubs': c['ubs'], 'ns': c.get('ns') or [c['n']], 'unit': c['unit'], 'name': 'close' if c.get('named') else None})[:1]
     else:
         # an unstitch case: rebuild the frame as df_slice returns it and call df_unslice again
         from pyg_base import df_unslice
